@@ -4,6 +4,7 @@ package main
 // every private key, so it can produce whatever RSA signature a symbolic blob calls for).
 
 import (
+	"strings"
 	"bytes"
 	"crypto"
 	"crypto/ecdsa"
@@ -231,7 +232,17 @@ func buildSymBlob(ct, content string, signers []symSigner, certs string, wrap bo
 			parts = append(parts, derTLV(0xa0, attrs))
 		}
 		parts = append(parts, derAlg(oidRSA), derTLV(0x04, sig))
-		if s.Unauth != "" && s.Unauth != "none" {
+		if strings.HasPrefix(s.Unauth, "nested_") {
+			// unauthenticatedAttributes [1] with Microsoft's nested-signature attribute: a complete, genuine SignedData made by the
+			// named signer's own key over the content named after the underscore
+			u := s.Unauth[len("nested_"):]
+			own := s.Sid
+			if own == "CaSub" {
+				own = "Ca"
+			}
+			inner := buildSymBlob(ct, u, []symSigner{{Sid: own, SigKey: sidCerts[own][0], SigOver: "attrs_as_encoded", Attrs: "present", CT: ct, MD: u, Order: "canonical"}}, "signer", true, digests)
+			parts = append(parts, derTLV(0xa1, attrTLV(asn1.ObjectIdentifier{1, 3, 6, 1, 4, 1, 311, 2, 4, 1}, inner)))
+		} else if s.Unauth != "" && s.Unauth != "none" {
 			// unauthenticatedAttributes [1] with a messageDigest attribute: anybody can add these, the signature does not cover them
 			um := sha256.Sum256(contentValue(ct, s.Unauth, digests))
 			parts = append(parts, derTLV(0xa1, attrTLV(oidMsgDigest, derTLV(0x04, um[:]))))
